@@ -131,8 +131,7 @@ Proof. intros A n j F H. rewrite (reference_step sc A n j F), H. reflexivity. Qe
 
 (* ------------------------------------------------------------------------------------------ *)
 (* (a) submitter level: termination                                                             *)
-Definition waiting (j : cjob) : bool := jstate_eqb (c_state j) NOT_SUBMITTED.
-Definition n_waiting (jobs : list cjob) : nat := length (filter waiting jobs).
+Definition n_waiting (jobs : list cjob) : nat := length (filter is_waiting jobs).
 
 Lemma meets_spec a b : meets a b = true <-> exists x, In x a /\ In x b.
 Proof.
@@ -175,12 +174,12 @@ Proof.
   destruct (uc_job failed newly j) as [j' b] eqn:E. cbn [fst snd].
   destruct b.
   - destruct (uc_job_canceled _ _ _ _ E) as [S [_ [_ [_ ->]]]].
-    assert (W1 : waiting {| c_name := c_name j; c_blocked := []; c_flag := c_flag j; c_state := DONE |} = false) by reflexivity.
-    assert (W2 : waiting j = true) by (unfold waiting; rewrite S; reflexivity).
+    assert (W1 : is_waiting {| c_name := c_name j; c_blocked := []; c_flag := c_flag j; c_state := DONE |} = false) by reflexivity.
+    assert (W2 : is_waiting j = true) by (unfold is_waiting; rewrite S; reflexivity).
     rewrite W1, W2. cbn [map length fst]. lia.
   - destruct (uc_job_kept _ _ _ _ E) as [_ [_ [S _]]].
-    assert (W : waiting j' = waiting j) by (unfold waiting; rewrite S; reflexivity).
-    rewrite W. destruct (waiting j); cbn [length]; lia.
+    assert (W : is_waiting j' = is_waiting j) by (unfold is_waiting; rewrite S; reflexivity).
+    rewrite W. destruct (is_waiting j); cbn [length]; lia.
 Qed.
 
 Lemma uc_loop_terminates : forall fuel feeds pending st, n_waiting (u_jobs st) < fuel ->
@@ -193,7 +192,669 @@ Proof.
 Qed.
 
 Lemma n_waiting_le jobs : n_waiting jobs <= length jobs.
-Proof. unfold n_waiting. induction jobs as [|a l IH]; cbn; [lia|]. destruct (waiting a); cbn; lia. Qed.
+Proof. unfold n_waiting. induction jobs as [|a l IH]; cbn; [lia|]. destruct (is_waiting a); cbn; lia. Qed.
 
 Theorem update_completed_terminates feeds jobs : update_completed feeds jobs <> None.
 Proof. unfold update_completed. apply uc_loop_terminates. cbn [u_init u_jobs]. pose proof (n_waiting_le jobs). lia. Qed.
+
+(* ------------------------------------------------------------------------------------------ *)
+(* the invariant behind c04_level_agnostic                                                      *)
+Lemma find_job_nodup sc : NoDup (map jname sc) -> forall j, In j sc -> find_job sc (jname j) = Some j.
+Proof.
+  induction sc as [|a l IH]; cbn; intros ND j Hj; [destruct Hj|].
+  inversion ND as [|x y Hn Hd]; subst. destruct Hj as [->|Hj]; [rewrite N.eqb_refl; reflexivity|].
+  destruct (N.eqb_spec (jname a) (jname j)) as [E|E].
+  - exfalso. apply Hn. rewrite E. apply in_map. exact Hj.
+  - apply IH; assumption.
+Qed.
+
+Section Chain.
+Variable sc : scenario.
+Hypothesis Hacyclic : acyclic sc.
+
+Definition has_row (rows : list row) (x : N) : Prop := exists r, In r rows /\ r_name r = x.
+Definition rows_ok (rows : list row) : Prop := forall r, In r rows -> row_outcome r = reference sc (r_name r).
+Definition run_ok (n : N) : Prop := exists j, find_job sc n = Some j /\ reference sc n = Finished (jrc j).
+
+(* a job still waiting (at the submitter or queued on a node) with remaining blockers [rem] *)
+Definition wait_ok (rows : list row) (name : N) (rem : list N) (flag : bool) : Prop :=
+  exists j, find_job sc name = Some j /\ flag = jflag j /\ incl rem (jdeps j) /\
+            forall d, In d (jdeps j) -> In d rem \/ (has_row rows d /\ (flag = true -> bad (reference sc d) = false)).
+
+Lemma has_row_mono rows rows' x : incl rows rows' -> has_row rows x -> has_row rows' x.
+Proof. intros I [r [H1 H2]]. exists r. split; auto. Qed.
+Lemma wait_ok_mono rows rows' name rem flag : incl rows rows' -> wait_ok rows name rem flag -> wait_ok rows' name rem flag.
+Proof.
+  intros I [j [F [E [S H]]]]. exists j. repeat split; auto.
+  intros d Hd. destruct (H d Hd) as [X|[X Y]]; [left; exact X|right; split; [eapply has_row_mono; eauto|exact Y]].
+Qed.
+Lemma wait_ok_cancel rows name rem x : wait_ok rows name rem true -> In x rem -> bad (reference sc x) = true ->
+  reference sc name = Canceled.
+Proof.
+  intros [j [F [E [S _]]]] Hx B. apply (reference_canceled_iff sc Hacyclic name j F).
+  split; [symmetry; exact E|]. exists x. split; [apply S; exact Hx|exact B].
+Qed.
+Lemma wait_ok_start rows name flag : wait_ok rows name [] flag -> run_ok name.
+Proof.
+  intros [j [F [E [_ H]]]]. exists j. split; [exact F|].
+  rewrite (reference_step sc Hacyclic name j F).
+  destruct (jflag j) eqn:Fl; [|reflexivity]. cbn [andb].
+  destruct (existsb (fun d => bad (reference sc d)) (jdeps j)) eqn:X; [|reflexivity].
+  apply existsb_exists in X. destruct X as [d [Hd Hb]].
+  destruct (H d Hd) as [[]|[_ G]]. rewrite G in Hb; [discriminate|exact E].
+Qed.
+Lemma wait_ok_remove rows name rem flag R :
+  wait_ok rows name rem flag ->
+  (forall x, In x rem -> In x R -> has_row rows x /\ (flag = true -> bad (reference sc x) = false)) ->
+  wait_ok rows name (diffN rem R) flag.
+Proof.
+  intros [j [F [E [S H]]]] HR. exists j. repeat split; auto.
+  - intros x Hx. apply diffN_spec in Hx. apply S. tauto.
+  - intros d Hd. destruct (H d Hd) as [X|X]; [|right; exact X].
+    destruct (memN d R) eqn:M.
+    + apply memN_In in M. right. apply HR; assumption.
+    + apply memN_false in M. left. apply diffN_spec. tauto.
+Qed.
+
+Lemma bad_row_outcome r : Z.eqb (r_rc r) 0 = false -> bad (row_outcome r) = true.
+Proof. intros H. unfold row_outcome. destruct (is_canceled _ _); cbn; [reflexivity|rewrite H; reflexivity]. Qed.
+Lemma good_row_outcome r : Z.eqb (r_rc r) 0 = true -> bad (row_outcome r) = false.
+Proof.
+  intros H. apply Z.eqb_eq in H. unfold row_outcome, is_canceled. rewrite H. cbn. reflexivity.
+Qed.
+
+Lemma failed_of_spec rs x : In x (failed_of rs) <-> exists r, In r rs /\ r_name r = x /\ sub_is_failure (r_rc r) = true.
+Proof.
+  unfold failed_of. rewrite in_map_iff. split.
+  - intros [r [E H]]. apply filter_In in H. exists r. tauto.
+  - intros [r [H1 [H2 H3]]]. exists r. split; [exact H2|apply filter_In; tauto].
+Qed.
+Lemma names_of_spec rs x : In x (names_of rs) <-> exists r, In r rs /\ r_name r = x.
+Proof. unfold names_of. rewrite in_map_iff. split; intros [r H]; exists r; tauto. Qed.
+
+(* ---- submitter level ---- *)
+Definition sub_inv (rows0 : list row) (st : ustate) (pending : list row) : Prop :=
+  let G := rows0 ++ u_rows st in
+  rows_ok G /\
+  (forall j, In j (u_jobs st) -> is_waiting j = true -> wait_ok G (c_name j) (c_blocked j) (c_flag j)) /\
+  (forall j, In j (u_jobs st) -> is_waiting j = true -> forall x, In x (c_blocked j) -> ~ In x (u_newly st)) /\
+  incl pending G.
+
+Lemma uc_iter_inv rows0 feed pending st :
+  incl feed rows0 -> sub_inv rows0 st pending ->
+  let (st', canc) := uc_iter feed pending st in sub_inv rows0 st' (map sub_cancel_row canc).
+Proof.
+  intros Hfeed [J1 [J2 [J3 J4]]].
+  unfold uc_iter.
+  set (results := feed ++ pending). set (newly := u_newly st ++ names_of results). set (failed := failed_of results).
+  set (pr := map (uc_job failed newly) (u_jobs st)).
+  set (canc := map (fun p => c_name (fst p)) (filter snd pr)).
+  unfold sub_inv. cbn [u_jobs u_newly u_rows].
+  set (G := rows0 ++ u_rows st) in *.
+  assert (Hres : incl results G).
+  { intros r Hr. apply in_app_or in Hr. destruct Hr as [Hr|Hr]; [apply in_or_app; left; apply Hfeed; exact Hr|apply J4; exact Hr]. }
+  assert (HG : incl G (rows0 ++ u_rows st ++ map sub_cancel_row canc)).
+  { intros r Hr. rewrite app_assoc. apply in_or_app. left. exact Hr. }
+  assert (Hcanc : forall c, In c canc -> reference sc c = Canceled).
+  { intros c Hc. unfold canc in Hc. apply in_map_iff in Hc. destruct Hc as [[j' b] [E Hp]]. cbn in E. subst c.
+    apply filter_In in Hp. destruct Hp as [Hp Hb]. cbn in Hb. subst b.
+    unfold pr in Hp. apply in_map_iff in Hp. destruct Hp as [j [E Hj]].
+    destruct (uc_job_canceled _ _ _ _ E) as [S [_ [Fl [M ->]]]]. cbn [c_name].
+    apply meets_spec in M. destruct M as [x [Hx Hf]].
+    apply failed_of_spec in Hf. destruct Hf as [r [Hr [Hn Hfail]]].
+    assert (W : is_waiting j = true) by (unfold is_waiting; rewrite S; reflexivity).
+    pose proof (J2 j Hj W) as WO. rewrite Fl in WO.
+    apply (wait_ok_cancel G (c_name j) (c_blocked j) x WO Hx).
+    rewrite <- Hn, <- (J1 r (Hres r Hr)). apply bad_row_outcome.
+    rewrite sub_is_failure_spec in Hfail. apply negb_true_iff in Hfail. exact Hfail. }
+  repeat split.
+  - intros r Hr. rewrite app_assoc in Hr. apply in_app_or in Hr. destruct Hr as [Hr|Hr]; [apply J1; exact Hr|].
+    apply in_map_iff in Hr. destruct Hr as [c [<- Hc]]. rewrite row_outcome_sub_cancel. cbn [sub_cancel_row r_name].
+    symmetry. apply Hcanc. exact Hc.
+  - intros j' Hj' W'. apply in_map_iff in Hj'. destruct Hj' as [[j'' b] [E Hp]]. cbn in E. subst j''.
+    unfold pr in Hp. apply in_map_iff in Hp. destruct Hp as [j [E Hj]].
+    destruct b.
+    { destruct (uc_job_canceled _ _ _ _ E) as [_ [_ [_ [_ ->]]]]. discriminate W'. }
+    destruct (uc_job_kept _ _ _ _ E) as [Hn [Hfl [Hst Hcase]]].
+    assert (W : is_waiting j = true) by (unfold is_waiting in *; rewrite <- Hst; exact W').
+    pose proof (J2 j Hj W) as WO.
+    rewrite Hn, Hfl.
+    destruct Hcase as [[S [NE [NM Hb]]]|[_ ->]]; [|eapply wait_ok_mono; [exact HG|exact WO]].
+    rewrite Hb. eapply wait_ok_mono; [exact HG|].
+    apply wait_ok_remove; [exact WO|].
+    intros x Hx Hnew. unfold newly in Hnew. apply in_app_or in Hnew. destruct Hnew as [Hnew|Hnew]; [exfalso; exact (J3 j Hj W x Hx Hnew)|].
+    apply names_of_spec in Hnew. destruct Hnew as [r [Hr Hrn]].
+    split; [exists r; split; [apply Hres; exact Hr|exact Hrn]|].
+    intros Fl. rewrite Fl in NM. cbn [andb] in NM.
+    rewrite <- Hrn, <- (J1 r (Hres r Hr)). apply good_row_outcome.
+    destruct (Z.eqb (r_rc r) 0) eqn:Z0; [reflexivity|exfalso].
+    assert (M : meets (c_blocked j) failed = true).
+    { apply meets_spec. exists x. split; [exact Hx|]. apply failed_of_spec. exists r. repeat split; auto.
+      rewrite sub_is_failure_spec, Z0. reflexivity. }
+    congruence.
+  - intros j' Hj' W' x Hx Hnew. apply in_map_iff in Hj'. destruct Hj' as [[j'' b] [E Hp]]. cbn in E. subst j''.
+    unfold pr in Hp. apply in_map_iff in Hp. destruct Hp as [j [E Hj]].
+    destruct b.
+    { destruct (uc_job_canceled _ _ _ _ E) as [_ [_ [_ [_ ->]]]]. discriminate W'. }
+    destruct (uc_job_kept _ _ _ _ E) as [Hn [Hfl [Hst Hcase]]].
+    destruct Hcase as [[S [NE [NM Hb]]]|[Hc ->]].
+    + rewrite Hb in Hx. apply diffN_spec in Hx. tauto.
+    + destruct Hc as [Hc|Hc]; [unfold is_waiting in W'; destruct (c_state j); try discriminate; congruence|].
+      rewrite Hc in Hx. destruct Hx.
+  - intros r Hr. rewrite app_assoc. apply in_or_app. right. exact Hr.
+Qed.
+
+Lemma uc_loop_inv rows0 : forall fuel feeds pending st st',
+  incl (concat feeds) rows0 -> sub_inv rows0 st pending ->
+  uc_loop fuel feeds pending st = Some st' -> sub_inv rows0 st' [].
+Proof.
+  induction fuel as [|f IH]; intros feeds pending st st' Hf I H; [discriminate|].
+  cbn [uc_loop] in H.
+  assert (Hhd : incl (hd [] feeds) rows0).
+  { destruct feeds as [|a l]; cbn; [intros x []|]. intros x Hx. apply Hf. cbn. apply in_or_app. left. exact Hx. }
+  assert (Htl : incl (concat (tl feeds)) rows0).
+  { destruct feeds as [|a l]; cbn; [intros x []|]. intros x Hx. apply Hf. cbn. apply in_or_app. right. exact Hx. }
+  pose proof (uc_iter_inv rows0 (hd [] feeds) pending st Hhd I) as I'.
+  destruct (uc_iter (hd [] feeds) pending st) as [st1 canc].
+  destruct canc as [|c canc].
+  - inversion H; subst. exact I'.
+  - eapply IH; [exact Htl|exact I'|exact H].
+Qed.
+(* ---- node level ---- *)
+Lemma in_lefts {A B C} (f : C -> A + B) l a : In a (lefts (map f l)) <-> exists c, In c l /\ f c = inl a.
+Proof.
+  induction l as [|c l IH]; cbn; [split; [intros []|intros [c [[] _]]]|].
+  destruct (f c) as [a'|b'] eqn:E; cbn; rewrite IH; split.
+  - intros [->|[c' [H1 H2]]]; [exists c; auto|exists c'; auto].
+  - intros [c' [[->|H1] H2]]; [left; congruence|right; exists c'; auto].
+  - intros [c' [H1 H2]]. exists c'; auto.
+  - intros [c' [[->|H1] H2]]; [congruence|exists c'; auto].
+Qed.
+Lemma in_rights {A B C} (f : C -> A + B) l b : In b (rights (map f l)) <-> exists c, In c l /\ f c = inr b.
+Proof.
+  induction l as [|c l IH]; cbn; [split; [intros []|intros [c [[] _]]]|].
+  destruct (f c) as [a'|b'] eqn:E; cbn; rewrite IH; split.
+  - intros [c' [H1 H2]]. exists c'; auto.
+  - intros [c' [[->|H1] H2]]; [congruence|exists c'; auto].
+  - intros [->|[c' [H1 H2]]]; [exists c; auto|exists c'; auto].
+  - intros [c' [[->|H1] H2]]; [left; congruence|right; exists c'; auto].
+Qed.
+Lemma lefts_rights_length {A B} (l : list (A + B)) : length (lefts l) + length (rights l) = length l.
+Proof. induction l as [|[a|b] l IH]; cbn; lia. Qed.
+
+Lemma cc_job_cases failed name q :
+  (cc_job failed name q = inr (q_name q) /\ q_flag q = true /\ meets (q_blocking q) failed = true) \/
+  (exists q', cc_job failed name q = inl q' /\ q_name q' = q_name q /\ q_flag q' = q_flag q /\
+     (q' = q \/ ((q_flag q && meets (q_blocking q) failed = false) /\ In name (q_blocking q) /\
+                 q_blocking q' = diffN (q_blocking q) [name]))).
+Proof.
+  unfold cc_job. destruct (q_blocking q) as [|b bl] eqn:B.
+  - right. exists q. repeat split; auto.
+  - destruct (q_flag q && meets (b :: bl) failed) eqn:M.
+    + left. apply andb_true_iff in M. destruct M. repeat split; auto.
+    + destruct (memN name (b :: bl)) eqn:Mem.
+      * right. eexists. split; [reflexivity|]. cbn [q_name q_flag q_blocking]. repeat split; auto.
+        right. repeat split; auto. apply memN_In. exact Mem.
+      * right. exists q. repeat split; auto.
+Qed.
+
+Definition out_ok (G : list row) (o : ojob) : Prop :=
+  match o with ORunning n => run_ok n | OCanceled n => has_row G n /\ bad (reference sc n) = true end.
+Definition node_inv (rows0 : list row) (st : qstate) : Prop :=
+  let G := rows0 ++ qs_rows st in
+  rows_ok G /\
+  (forall q, In q (qs_queued st) -> wait_ok G (q_name q) (q_blocking q) (q_flag q)) /\
+  (forall o, In o (qs_out st) -> out_ok G o) /\
+  (forall x, In x (qs_failed st) -> bad (reference sc x) = true).
+(* a completed name may be taken off the blockers of queued jobs *)
+Definition done_ok (rows0 : list row) (st : qstate) (name : N) : Prop :=
+  has_row (rows0 ++ qs_rows st) name /\ (bad (reference sc name) = true -> In name (qs_failed st)).
+
+Lemma out_ok_mono G G' o : incl G G' -> out_ok G o -> out_ok G' o.
+Proof. intros I. destruct o; cbn; [auto|]. intros [H1 H2]. split; [eapply has_row_mono; eauto|exact H2]. Qed.
+
+Lemma cc_name_inv rows0 st name : node_inv rows0 st -> done_ok rows0 st name ->
+  node_inv rows0 (cc_name st name) /\ qs_failed (cc_name st name) = qs_failed st /\
+  incl (qs_rows st) (qs_rows (cc_name st name)).
+Proof.
+  intros [K1 [K2 [K3 K4]]] [D1 D2]. unfold cc_name, node_inv. cbn [qs_out qs_queued qs_rows qs_failed].
+  set (res := map (cc_job (qs_failed st) name) (qs_queued st)).
+  set (G := rows0 ++ qs_rows st) in *.
+  assert (HG : incl G (rows0 ++ qs_rows st ++ map node_cancel_row (rights res))).
+  { intros r Hr. rewrite app_assoc. apply in_or_app. left. exact Hr. }
+  assert (Hc : forall c, In c (rights res) -> reference sc c = Canceled).
+  { intros c Hc. apply in_rights in Hc. destruct Hc as [q [Hq E]].
+    destruct (cc_job_cases (qs_failed st) name q) as [[E' [Fl M]]|[q' [E' _]]]; [|congruence].
+    rewrite E' in E. inversion E; subst c.
+    apply meets_spec in M. destruct M as [x [Hx Hf]].
+    pose proof (K2 q Hq) as WO. rewrite Fl in WO.
+    exact (wait_ok_cancel G _ _ x WO Hx (K4 x Hf)). }
+  split; [|split; [reflexivity|intros r Hr; apply in_or_app; left; exact Hr]].
+  repeat split.
+  - intros r Hr. rewrite app_assoc in Hr. apply in_app_or in Hr. destruct Hr as [Hr|Hr]; [apply K1; exact Hr|].
+    apply in_map_iff in Hr. destruct Hr as [c [<- Hin]]. rewrite row_outcome_node_cancel. cbn [node_cancel_row r_name].
+    symmetry. apply Hc. exact Hin.
+  - intros q' Hq'. apply in_lefts in Hq'. destruct Hq' as [q [Hq E]].
+    destruct (cc_job_cases (qs_failed st) name q) as [[E' _]|[q'' [E' [Hn [Hf Hcase]]]]]; [congruence|].
+    rewrite E' in E. inversion E; subst q''. rewrite Hn, Hf.
+    pose proof (K2 q Hq) as WO. eapply wait_ok_mono; [exact HG|].
+    destruct Hcase as [->|[NM [Hin Hb]]]; [exact WO|].
+    rewrite Hb. apply wait_ok_remove; [exact WO|].
+    intros x Hx [<-|[]]. split; [exact D1|].
+    intros Fl. rewrite Fl in NM. cbn [andb] in NM.
+    destruct (bad (reference sc name)) eqn:Bd; [exfalso|reflexivity].
+    assert (M : meets (q_blocking q) (qs_failed st) = true) by (apply meets_spec; exists name; split; auto).
+    congruence.
+  - intros o Ho. apply in_app_or in Ho. destruct Ho as [Ho|Ho].
+    + apply filter_In in Ho. eapply out_ok_mono; [exact HG|]. apply K3. tauto.
+    + apply in_map_iff in Ho. destruct Ho as [c [<- Hin]]. cbn. split.
+      * exists (node_cancel_row c). split; [|reflexivity]. apply in_or_app. right. apply in_or_app. right.
+        apply in_map. exact Hin.
+      * rewrite (Hc c Hin). reflexivity.
+  - exact K4.
+Qed.
+
+Lemma fold_cc_name_inv rows0 : forall names st, node_inv rows0 st -> (forall n, In n names -> done_ok rows0 st n) ->
+  node_inv rows0 (fold_left cc_name names st).
+Proof.
+  induction names as [|n names IH]; intros st I D; [exact I|]. cbn [fold_left].
+  destruct (cc_name_inv rows0 st n I (D n (or_introl eq_refl))) as [I' [Hf Hr]].
+  apply IH; [exact I'|]. intros m Hm. destruct (D m (or_intror Hm)) as [D1 D2]. split.
+  - destruct D1 as [r [H1 H2]]. exists r. split; [|exact H2]. apply in_app_or in H1. apply in_or_app.
+    destruct H1 as [H1|H1]; [left; exact H1|right; apply Hr; exact H1].
+  - rewrite Hf. exact D2.
+Qed.
+
+Lemma assocN_in {A} n (l : list (N * A)) v : assocN n l = Some v -> In (n, v) l.
+Proof.
+  induction l as [|[k x] l IH]; cbn; [discriminate|]. destruct (N.eqb_spec n k) as [->|E]; intros H.
+  - inversion H; subst. left; reflexivity.
+  - right. apply IH. exact H.
+Qed.
+Lemma cc_poll_spec obs out n rc b : In (n, rc, b) (cc_poll obs out) <->
+  (In (ORunning n) out /\ assocN n obs = Some rc /\ b = true) \/ (In (OCanceled n) out /\ rc = node_cancel_rc /\ b = false).
+Proof.
+  unfold cc_poll. rewrite in_flat_map. split.
+  - intros [o [Ho H]]. destruct o as [m|m].
+    + destruct (assocN m obs) as [rc'|] eqn:E; [|destruct H]. destruct H as [H|[]]. inversion H; subst. left. auto.
+    + destruct H as [H|[]]. inversion H; subst. right. auto.
+  - intros [[H1 [H2 ->]]|[H1 [-> ->]]].
+    + exists (ORunning n). split; [exact H1|]. rewrite H2. left; reflexivity.
+    + exists (OCanceled n). split; [exact H1|]. left; reflexivity.
+Qed.
+
+Definition obs_ok (obs : list (N * Z)) : Prop := forall n rc, In (n, rc) obs -> forall j, find_job sc n = Some j -> jrc j = rc.
+
+Lemma cc_iter_inv rows0 obs st : obs_ok obs -> node_inv rows0 st -> node_inv rows0 (cc_iter obs st).
+Proof.
+  intros Ho [K1 [K2 [K3 K4]]]. unfold cc_iter.
+  set (polled := cc_poll obs (qs_out st)).
+  set (G := rows0 ++ qs_rows st) in *.
+  set (newrows := map (fun p : N * Z * bool => finish_row (fst (fst p)) (snd (fst p))) (filter snd polled)).
+  assert (HG : incl G (rows0 ++ qs_rows st ++ newrows)).
+  { intros r Hr. rewrite app_assoc. apply in_or_app. left. exact Hr. }
+  assert (Hrun : forall n rc, In (ORunning n) (qs_out st) -> assocN n obs = Some rc -> reference sc n = Finished rc).
+  { intros n rc Hin Ha. destruct (K3 _ Hin) as [j [F R]]. rewrite R. f_equal. apply (Ho n rc (assocN_in _ _ _ Ha) j F). }
+  apply fold_cc_name_inv.
+  - unfold node_inv. cbn [qs_out qs_queued qs_rows qs_failed]. fold G. repeat split.
+    + intros r Hr. rewrite app_assoc in Hr. apply in_app_or in Hr. destruct Hr as [Hr|Hr]; [apply K1; exact Hr|].
+      apply in_map_iff in Hr. destruct Hr as [[[n rc] b] [<- Hp]]. apply filter_In in Hp. destruct Hp as [Hp Hb]. cbn in Hb. subst b.
+      cbn [fst snd]. rewrite row_outcome_finish. cbn [finish_row r_name].
+      apply cc_poll_spec in Hp. destruct Hp as [[H1 [H2 _]]|[_ [_ H3]]]; [|discriminate]. symmetry. eapply Hrun; eauto.
+    + intros q Hq. eapply wait_ok_mono; [exact HG|]. apply K2. exact Hq.
+    + intros o Hin. eapply out_ok_mono; [exact HG|]. apply K3. exact Hin.
+    + intros x Hx. apply in_app_or in Hx. destruct Hx as [Hx|Hx]; [apply K4; exact Hx|].
+      apply in_map_iff in Hx. destruct Hx as [[[n rc] b] [E Hp]]. cbn in E. subst x. apply filter_In in Hp. destruct Hp as [Hp Hf]. cbn in Hf.
+      apply cc_poll_spec in Hp. destruct Hp as [[H1 [H2 _]]|[H1 _]].
+      * rewrite (Hrun n rc H1 H2). cbn. rewrite node_is_failure_spec in Hf. exact Hf.
+      * destruct (K3 _ H1) as [_ B]. exact B.
+  - intros n Hn. apply in_map_iff in Hn. destruct Hn as [[[n' rc] b] [E Hp]]. cbn in E. subst n'.
+    unfold done_ok. cbn [qs_rows qs_failed]. fold newrows.
+    pose proof Hp as Hp'. apply cc_poll_spec in Hp'. destruct Hp' as [[H1 [H2 ->]]|[H1 [-> ->]]].
+    + split.
+      * exists (finish_row n rc). split; [|reflexivity]. apply in_or_app. right. apply in_or_app. right.
+        unfold newrows. apply in_map_iff. exists (n, rc, true). split; [reflexivity|]. apply filter_In. split; [exact Hp|reflexivity].
+      * intros B. rewrite (Hrun n rc H1 H2) in B. cbn in B. apply in_or_app. right.
+        apply in_map_iff. exists (n, rc, true). split; [reflexivity|]. apply filter_In. split; [exact Hp|].
+        cbn. rewrite node_is_failure_spec. exact B.
+    + destruct (K3 _ H1) as [HR B]. split.
+      * eapply has_row_mono; [exact HG|exact HR].
+      * intros _. apply in_or_app. right. apply in_map_iff. exists (n, node_cancel_rc, false). split; [reflexivity|].
+        apply filter_In. split; [exact Hp|]. cbn. apply node_cancel_rc_failure.
+Qed.
+
+Lemma cc_loop_inv rows0 : forall fuel fin st st', (forall obs, In obs fin -> obs_ok obs) -> node_inv rows0 st ->
+  cc_loop fuel fin st = Some st' -> node_inv rows0 st'.
+Proof.
+  induction fuel as [|f IH]; intros fin st st' Ho I H; [discriminate|].
+  cbn [cc_loop] in H.
+  assert (Hhd : obs_ok (hd [] fin)).
+  { destruct fin as [|a l]; cbn; [intros n rc []|]. apply Ho. left; reflexivity. }
+  assert (Htl : forall obs, In obs (tl fin) -> obs_ok obs).
+  { destruct fin as [|a l]; cbn; [intros obs []|]. intros obs Hin. apply Ho. right; exact Hin. }
+  pose proof (cc_iter_inv rows0 (hd [] fin) st Hhd I) as I'.
+  destruct (Nat.ltb _ _); [eapply IH; eauto|]. inversion H; subst. exact I'.
+Qed.
+(* ---- both levels: the system invariant ---- *)
+Definition sys_inv (s : sys) : Prop :=
+  rows_ok (s_rows s) /\
+  (forall j, In j (s_cluster s) -> is_waiting j = true -> wait_ok (s_rows s) (c_name j) (c_blocked j) (c_flag j)) /\
+  (forall p, In p (s_queued s) -> wait_ok (s_rows s) (q_name (snd p)) (q_blocking (snd p)) (q_flag (snd p))) /\
+  (forall p, In p (s_running s) -> run_ok (snd p)) /\
+  (forall n, In n (s_launched s) -> run_ok n).
+
+Lemma row_eqb_eq a b : row_eqb a b = true -> a = b.
+Proof.
+  unfold row_eqb. intros H. apply andb_true_iff in H. destruct H as [H H3]. apply andb_true_iff in H. destruct H as [H1 H2].
+  apply N.eqb_eq in H1. apply Z.eqb_eq in H2. apply String.eqb_eq in H3. destruct a, b; cbn in *; congruence.
+Qed.
+
+Lemma sys_step_inv s ev s' : sys_inv s -> sys_step sc s ev = Some s' -> sys_inv s'.
+Proof.
+  intros [I1 [I2 [I3 [I4 I5]]]] H. destruct ev as [feeds|b names|b n|b fin]; cbn [sys_step] in H.
+  - (* submitter round *)
+    destruct (forallb _ (concat feeds)) eqn:Gd; [|discriminate].
+    destruct (update_completed feeds (s_cluster s)) as [u|] eqn:U; [|discriminate]. inversion H; subst s'; clear H.
+    assert (Hf : incl (concat feeds) (s_rows s)).
+    { intros r Hr. rewrite forallb_forall in Gd. specialize (Gd r Hr). apply existsb_exists in Gd.
+      destruct Gd as [r' [Hin E]]. apply row_eqb_eq in E. subst r'. exact Hin. }
+    assert (I0 : sub_inv (s_rows s) (u_init (s_cluster s)) []).
+    { unfold sub_inv, u_init. cbn [u_rows u_jobs u_newly]. rewrite app_nil_r. repeat split; auto.
+      intros r []. }
+    destruct (uc_loop_inv (s_rows s) _ _ _ _ _ Hf I0 U) as [J1 [J2 _]].
+    unfold sys_inv. cbn [s_rows s_cluster s_queued s_running s_launched]. repeat split; auto.
+    intros p Hp. eapply wait_ok_mono; [|apply I3; exact Hp]. intros r Hr. apply in_or_app. left. exact Hr.
+  - (* batch *)
+    inversion H; subst s'; clear H. unfold sys_inv. cbn [s_rows s_cluster s_queued s_running s_launched]. repeat split; auto.
+    + intros j' Hj' W. apply in_map_iff in Hj'. destruct Hj' as [j [E Hj]].
+      destruct (batched names j); subst j'; [discriminate W|]. apply I2; assumption.
+    + intros p Hp. apply in_app_or in Hp. destruct Hp as [Hp|Hp]; [apply I3; exact Hp|].
+      apply in_map_iff in Hp. destruct Hp as [j [<- Hj]]. apply filter_In in Hj. destruct Hj as [Hj Bt].
+      cbn [snd q_name q_blocking q_flag]. apply I2; [exact Hj|]. unfold batched in Bt. apply andb_true_iff in Bt. tauto.
+  - (* start *)
+    destruct (existsb (startable b n) (s_queued s)) eqn:Ex; [|discriminate]. inversion H; subst s'; clear H.
+    apply existsb_exists in Ex. destruct Ex as [p [Hp St]].
+    assert (R : run_ok n).
+    { unfold startable in St. apply andb_true_iff in St. destruct St as [St Hb]. apply andb_true_iff in St. destruct St as [_ Hn].
+      apply N.eqb_eq in Hn. pose proof (I3 p Hp) as WO. rewrite Hn in WO.
+      destruct (q_blocking (snd p)); [|discriminate]. eapply wait_ok_start. exact WO. }
+    unfold sys_inv. cbn [s_rows s_cluster s_queued s_running s_launched]. repeat split; auto.
+    + intros q Hq. apply filter_In in Hq. apply I3. tauto.
+    + intros q Hq. apply in_app_or in Hq. destruct Hq as [Hq|[<-|[]]]; [apply I4; exact Hq|exact R].
+    + intros m Hm. apply in_app_or in Hm. destruct Hm as [Hm|[<-|[]]]; [apply I5; exact Hm|exact R].
+  - (* node poll *)
+    destruct (forallb (rc_matches sc) (concat fin)) eqn:Gd; [|discriminate].
+    destruct (check_completions fin _ _) as [q|] eqn:C; [|discriminate]. inversion H; subst s'; clear H.
+    assert (Ho : forall obs, In obs fin -> obs_ok obs).
+    { intros obs Hobs m rc Hin j F. rewrite forallb_forall in Gd.
+      assert (X : In (m, rc) (concat fin)) by (apply in_concat; exists obs; split; assumption).
+      specialize (Gd _ X). unfold rc_matches in Gd. cbn [fst snd] in Gd. rewrite F in Gd. apply Z.eqb_eq. exact Gd. }
+    assert (I0 : node_inv (s_rows s) (q_init (map (fun p => ORunning (snd p)) (filter (on_node b) (s_running s)))
+                                            (map snd (filter (on_node b) (s_queued s))))).
+    { unfold node_inv, q_init. cbn [qs_rows qs_out qs_queued qs_failed]. rewrite app_nil_r. repeat split; auto.
+      - intros x Hx. apply in_map_iff in Hx. destruct Hx as [p [<- Hp]]. apply filter_In in Hp. apply I3. tauto.
+      - intros o Hin. apply in_map_iff in Hin. destruct Hin as [p [<- Hp]]. apply filter_In in Hp. cbn. apply I4. tauto. }
+    destruct (cc_loop_inv (s_rows s) _ _ _ _ Ho I0 C) as [K1 [K2 [K3 _]]].
+    assert (HG : incl (s_rows s) (s_rows s ++ qs_rows q)) by (intros r Hr; apply in_or_app; left; exact Hr).
+    unfold sys_inv. cbn [s_rows s_cluster s_queued s_running s_launched]. repeat split; auto.
+    + intros j Hj W. eapply wait_ok_mono; [exact HG|]. apply I2; assumption.
+    + intros p Hp. apply in_app_or in Hp. destruct Hp as [Hp|Hp].
+      * apply filter_In in Hp. eapply wait_ok_mono; [exact HG|]. apply I3. tauto.
+      * apply in_map_iff in Hp. destruct Hp as [x [<- Hx]]. cbn [snd]. apply K2. exact Hx.
+    + intros p Hp. apply in_app_or in Hp. destruct Hp as [Hp|Hp].
+      * apply filter_In in Hp. apply I4. tauto.
+      * apply in_map_iff in Hp. destruct Hp as [x [<- Hx]]. cbn [snd]. unfold running_names in Hx.
+        apply in_flat_map in Hx. destruct Hx as [o [Hin Hx]]. destruct o as [m|m]; [|destruct Hx].
+        destruct Hx as [<-|[]]. exact (K3 _ Hin).
+Qed.
+
+Lemma sys_run_inv : forall evs s s', sys_inv s -> sys_run sc s evs = Some s' -> sys_inv s'.
+Proof.
+  induction evs as [|e evs IH]; intros s s' I H; cbn in H; [inversion H; subst; exact I|].
+  destruct (sys_step sc s e) as [s1|] eqn:E; [|discriminate]. eapply IH; [|exact H]. eapply sys_step_inv; eauto.
+Qed.
+
+Lemma sys_init_inv : NoDup (map jname sc) -> sys_inv (sys_init sc).
+Proof.
+  intros ND. unfold sys_inv, sys_init. cbn [s_rows s_cluster s_queued s_running s_launched]. repeat split.
+  - intros r [].
+  - intros j' Hj' _. apply in_map_iff in Hj'. destruct Hj' as [j [<- Hj]]. cbn [c_name c_blocked c_flag].
+    exists j. repeat split; [apply find_job_nodup; assumption|apply incl_refl|]. intros d Hd. left. exact Hd.
+  - intros p [].
+  - intros p [].
+  - intros n [].
+Qed.
+End Chain.
+
+Theorem level_agnostic sc : acyclic sc -> NoDup (map jname sc) ->
+  forall evs s, sys_run sc (sys_init sc) evs = Some s ->
+  (forall r, In r (s_rows s) -> row_outcome r = reference sc (r_name r)) /\
+  (forall n, In n (s_launched s) -> exists j, find_job sc n = Some j /\ reference sc n = Finished (jrc j)) /\
+  (forall r, In r (s_rows s) -> row_outcome r = Canceled -> ~ In (r_name r) (s_launched s)).
+Proof.
+  intros A ND evs s H.
+  destruct (sys_run_inv sc A evs _ _ (sys_init_inv sc ND) H) as [I1 [_ [_ [_ I5]]]].
+  split; [exact I1|]. split; [exact I5|].
+  intros r Hr Hc Hl. destruct (I5 _ Hl) as [j [_ R]]. rewrite <- (I1 r Hr), Hc in R. discriminate.
+Qed.
+
+(* ------------------------------------------------------------------------------------------ *)
+(* (a) submitter level: exactly which waiting jobs the fix-point cancels                        *)
+
+(* closed form over the ghost log [(failed_1, newly_1); ...; (failed_K, newly_K)]:
+   a waiting flagged job with blockers b is canceled iff for some iteration k its then-remaining
+   blockers  b \ newly_1 \ ... \ newly_(k-1)  meet failed_k *)
+Fixpoint cancels (b : list N) (log : list (list N * list N)) : bool :=
+  match log with
+  | [] => false
+  | (failed, newly) :: rest => meets b failed || cancels (diffN b newly) rest
+  end.
+Definition remaining (b : list N) (log : list (list N * list N)) : list N :=
+  fold_left (fun b e => diffN b (snd e)) log b.
+
+Fixpoint job_run (log : list (list N * list N)) (j : cjob) : cjob * bool :=
+  match log with
+  | [] => (j, false)
+  | (failed, newly) :: rest =>
+    match uc_job failed newly j with
+    | (j', true) => (j', true)
+    | (j', false) => job_run rest j'
+    end
+  end.
+
+Lemma job_run_not_waiting log j : is_waiting j = false -> job_run log j = (j, false).
+Proof.
+  induction log as [|[f n] log IH]; intros W; [reflexivity|]. cbn [job_run].
+  assert (E : uc_job f n j = (j, false)).
+  { unfold uc_job. unfold is_waiting in W. destruct (c_state j); try discriminate; reflexivity. }
+  rewrite E. apply IH. exact W.
+Qed.
+Lemma cancels_nil log : cancels [] log = false.
+Proof. induction log as [|[f n] log IH]; [reflexivity|]. cbn. exact IH. Qed.
+Lemma remaining_nil log : remaining [] log = [].
+Proof. induction log as [|[f n] log IH]; [reflexivity|]. exact IH. Qed.
+
+Lemma job_run_spec log : forall j, is_waiting j = true ->
+  snd (job_run log j) = c_flag j && cancels (c_blocked j) log /\
+  c_name (fst (job_run log j)) = c_name j /\ c_flag (fst (job_run log j)) = c_flag j /\
+  (snd (job_run log j) = true -> c_state (fst (job_run log j)) = DONE /\ c_blocked (fst (job_run log j)) = []) /\
+  (snd (job_run log j) = false -> c_state (fst (job_run log j)) = NOT_SUBMITTED /\
+                                  c_blocked (fst (job_run log j)) = remaining (c_blocked j) log).
+Proof.
+  induction log as [|[f n] log IH]; intros j W.
+  - cbn. rewrite andb_false_r. repeat split; auto; try discriminate.
+    unfold is_waiting in W. destruct (c_state j); try discriminate; reflexivity.
+  - cbn [job_run cancels remaining fold_left snd]. fold (remaining (diffN (c_blocked j) n) log).
+    destruct (uc_job f n j) as [j' b] eqn:E. destruct b.
+    + destruct (uc_job_canceled _ _ _ _ E) as [_ [_ [Fl [M ->]]]]. cbn. rewrite Fl, M. cbn.
+      repeat split; auto; discriminate.
+    + destruct (uc_job_kept _ _ _ _ E) as [Hn [Hf [Hs Hc]]].
+      assert (W' : is_waiting j' = true) by (unfold is_waiting in *; rewrite Hs; exact W).
+      destruct (IH j' W') as [A [B [C [D F]]]]. rewrite B, C, Hn, Hf.
+      destruct Hc as [[S [NE [NM Hb]]]|[[S|S] ->]].
+      * split.
+        { rewrite A, Hf, Hb. destruct (c_flag j); cbn [andb] in *; [rewrite NM; reflexivity|reflexivity]. }
+        split; [reflexivity|]. split; [reflexivity|]. split; [exact D|].
+        intros X. destruct (F X) as [F1 F2]. rewrite F1, F2, Hb. split; reflexivity.
+      * unfold is_waiting in W. destruct (c_state j); try discriminate; congruence.
+      * split.
+        { rewrite A. rewrite S. cbn [diffN filter]. rewrite cancels_nil. cbn. rewrite !andb_false_r. reflexivity. }
+        split; [reflexivity|]. split; [reflexivity|]. split; [exact D|].
+        intros X. destruct (F X) as [F1 F2]. rewrite F1, F2, S. split; reflexivity.
+Qed.
+
+Lemma uc_loop_log : forall fuel feeds pending st u, uc_loop fuel feeds pending st = Some u ->
+  exists log, u_log u = u_log st ++ log /\
+    u_jobs u = map (fun j => fst (job_run log j)) (u_jobs st) /\
+    (forall c, In c (u_canceled u) <-> In c (u_canceled st) \/ exists j, In j (u_jobs st) /\ c_name j = c /\ snd (job_run log j) = true) /\
+    (u_rows st = map sub_cancel_row (u_canceled st) -> u_rows u = map sub_cancel_row (u_canceled u)).
+Proof.
+  induction fuel as [|fu IH]; intros feeds pending st u H; [discriminate|].
+  cbn [uc_loop] in H. destruct (uc_iter (hd [] feeds) pending st) as [st1 canc] eqn:It.
+  unfold uc_iter in It.
+  set (failed := failed_of (hd [] feeds ++ pending)) in *. set (newly := u_newly st ++ names_of (hd [] feeds ++ pending)) in *.
+  inversion It as [[E1 E2]]. clear It.
+  assert (Hc : forall c, In c canc <-> exists j, In j (u_jobs st) /\ c_name j = c /\ snd (uc_job failed newly j) = true).
+  { intros c. rewrite <- E2. rewrite in_map_iff. split.
+    - intros [[j' b] [<- Hp]]. apply filter_In in Hp. destruct Hp as [Hp Hb]. apply in_map_iff in Hp.
+      destruct Hp as [j [E Hj]]. exists j. split; [exact Hj|]. rewrite E. cbn in *. split; [|exact Hb].
+      pose proof (uc_job_name failed newly j) as X. rewrite E in X. cbn in X. symmetry. exact X.
+    - intros [j [Hj [Hn Hs]]]. exists (uc_job failed newly j). split; [rewrite uc_job_name; exact Hn|].
+      apply filter_In. split; [apply in_map; exact Hj|exact Hs]. }
+  destruct canc as [|c0 canc].
+  - inversion H; subst u; clear H. exists [(failed, newly)]. rewrite <- E1. cbn [u_log u_jobs u_canceled u_rows].
+    rewrite E2. split; [reflexivity|]. split; [|split].
+    + rewrite map_map. apply map_ext. intros j. cbn [job_run]. destruct (uc_job failed newly j) as [j' b]; destruct b; reflexivity.
+    + intros c. rewrite app_nil_r. split; [intros X; left; exact X|]. intros [X|[j [Hj [Hn Hs]]]]; [exact X|].
+      exfalso. cbn [job_run] in Hs. destruct (uc_job failed newly j) as [j' b] eqn:E; destruct b; cbn in Hs; [|discriminate].
+      assert (X : In c []) by (apply Hc; exists j; rewrite E; auto). destruct X.
+    + intros X. cbn. rewrite !app_nil_r. exact X.
+  - destruct (IH _ _ _ _ H) as [log [L1 [L2 [L3 L4]]]]. exists ((failed, newly) :: log).
+    rewrite <- E1 in L1, L2, L3, L4. cbn [u_log u_jobs u_canceled u_rows] in *.
+    split; [rewrite L1, <- app_assoc; reflexivity|]. split; [|split].
+    + rewrite L2, !map_map. apply map_ext. intros j. cbn [job_run].
+      destruct (uc_job failed newly j) as [j' b] eqn:E; destruct b; cbn [fst]; [|reflexivity].
+      destruct (uc_job_canceled _ _ _ _ E) as [_ [_ [_ [_ ->]]]]. rewrite job_run_not_waiting; reflexivity.
+    + intros c. rewrite L3. rewrite in_app_iff. rewrite E2. rewrite (Hc c). split.
+      * intros [[X|[j [Hj [Hn Hs]]]]|[j1 [Hj1 [Hn Hs]]]]; [left; exact X| |].
+        -- right. exists j. repeat split; auto. cbn [job_run]. destruct (uc_job failed newly j) as [j' b]; cbn in Hs; subst b. reflexivity.
+        -- apply in_map_iff in Hj1. destruct Hj1 as [[j1' b1] [E Hp]]. cbn in E. subst j1'.
+           apply in_map_iff in Hp. destruct Hp as [j [E' Hj]]. right. exists j. split; [exact Hj|].
+           pose proof (uc_job_name failed newly j) as X. rewrite E' in X. cbn in X.
+           split; [congruence|]. cbn [job_run]. rewrite E'. destruct b1; [reflexivity|exact Hs].
+      * intros [X|[j [Hj [Hn Hs]]]]; [left; left; exact X|].
+        cbn [job_run] in Hs. destruct (uc_job failed newly j) as [j' b] eqn:E'; destruct b.
+        -- left. right. exists j. rewrite E'. auto.
+        -- right. exists j'. split; [apply in_map_iff; exists (j', false); split; [reflexivity|apply in_map_iff; exists j; auto]|]. split; [|exact Hs].
+           pose proof (uc_job_name failed newly j) as X. rewrite E' in X. cbn in X. congruence.
+    + intros X. apply L4. rewrite E2. rewrite X, map_app. reflexivity.
+Qed.
+
+Theorem update_completed_cancels_iff feeds jobs u : update_completed feeds jobs = Some u -> NoDup (map c_name jobs) ->
+  (forall j, In j jobs ->
+     (In (c_name j) (u_canceled u) <-> is_waiting j = true /\ c_flag j = true /\ cancels (c_blocked j) (u_log u) = true)) /\
+  u_rows u = map sub_cancel_row (u_canceled u) /\
+  (forall j, In j jobs -> exists j', In j' (u_jobs u) /\ c_name j' = c_name j /\ c_flag j' = c_flag j /\
+     (In (c_name j) (u_canceled u) -> c_state j' = DONE /\ c_blocked j' = []) /\
+     (~ In (c_name j) (u_canceled u) -> c_state j' = c_state j /\
+        c_blocked j' = if is_waiting j then remaining (c_blocked j) (u_log u) else c_blocked j)).
+Proof.
+  intros H ND. unfold update_completed in H. destruct (uc_loop_log _ _ _ _ _ H) as [log [L1 [L2 [L3 L4]]]].
+  cbn [u_init u_log u_jobs u_canceled u_rows] in *.
+  assert (Hrun : forall j, In j jobs -> (In (c_name j) (u_canceled u) <-> snd (job_run log j) = true)).
+  { intros j Hj. rewrite L3. split.
+    - intros [[]|[j2 [Hj2 [Hn Hs]]]]. assert (j2 = j); [|subst; exact Hs].
+      clear - ND Hj Hj2 Hn. induction jobs as [|a l IH]; [destruct Hj|]. cbn in ND. inversion ND as [|x y Hni Hnd]; subst.
+      destruct Hj as [->|Hj]; destruct Hj2 as [->|Hj2]; auto.
+      + exfalso. apply Hni. rewrite <- Hn. apply in_map. exact Hj2.
+      + exfalso. apply Hni. rewrite Hn. apply in_map. exact Hj.
+    - intros Hs. right. exists j. auto. }
+  cbn [app] in L1. rewrite L1.
+  split; [|split; [apply L4; reflexivity|]].
+  - intros j Hj. rewrite (Hrun j Hj). destruct (is_waiting j) eqn:W.
+    + destruct (job_run_spec log j W) as [A _]. rewrite A, andb_true_iff. tauto.
+    + rewrite job_run_not_waiting by exact W. cbn. split; [discriminate|intros [X _]; discriminate].
+  - intros j Hj. exists (fst (job_run log j)). split; [rewrite L2; apply in_map_iff; exists j; auto|].
+    destruct (is_waiting j) eqn:W.
+    + destruct (job_run_spec log j W) as [A [B [C [D F]]]].
+      split; [exact B|]. split; [exact C|]. split.
+      * intros X. apply (Hrun j Hj) in X. exact (D X).
+      * intros X. destruct (snd (job_run log j)) eqn:S; [exfalso; apply X; apply (Hrun j Hj); exact S|].
+        destruct (F eq_refl) as [F1 F2]. unfold is_waiting in W. destruct (c_state j); try discriminate. split; [exact F1|exact F2].
+    + rewrite job_run_not_waiting by exact W. cbn [fst].
+      split; [reflexivity|]. split; [reflexivity|]. split.
+      * intros X. apply (Hrun j Hj) in X. rewrite job_run_not_waiting in X by exact W. discriminate.
+      * intros _. split; reflexivity.
+Qed.
+
+(* ------------------------------------------------------------------------------------------ *)
+(* (b) node level: termination and the exact rule of one scan of the queued jobs                *)
+Lemma cc_loop_terminates : forall fuel fin st, length (qs_queued st) < fuel -> cc_loop fuel fin st <> None.
+Proof.
+  induction fuel as [|f IH]; intros fin st H; [lia|]. cbn [cc_loop].
+  destruct (Nat.ltb_spec (length (qs_queued (cc_iter (hd [] fin) st))) (length (qs_queued st))) as [L|L]; [|discriminate].
+  apply IH. lia.
+Qed.
+Theorem check_completions_terminates fin out queued : check_completions fin out queued <> None.
+Proof. unfold check_completions. apply cc_loop_terminates. cbn. lia. Qed.
+
+Lemma remaining_spec log : forall b x, In x (remaining b log) <-> In x b /\ forall e, In e log -> ~ In x (snd e).
+Proof.
+  induction log as [|e log IH]; intros b x; cbn [remaining fold_left].
+  - split; [intros H; split; [exact H|intros e []]|tauto].
+  - fold (remaining (diffN b (snd e)) log). rewrite IH, diffN_spec. split.
+    + intros [[H1 H2] H3]. split; [exact H1|]. intros e' [<-|H]; [exact H2|apply H3; exact H].
+    + intros [H1 H2]. split; [split; [exact H1|apply H2; left; reflexivity]|]. intros e' H. apply H2. right. exact H.
+Qed.
+
+(* one scan of the queued jobs for one completed name: a queued job is canceled iff it is flagged, still
+   blocked, and one of its blockers is in failed_jobs; a job that stays loses exactly [name] *)
+Theorem check_completions_cancels_iff failed name q :
+  (cc_job failed name q = inr (q_name q) <-> q_blocking q <> [] /\ q_flag q = true /\ meets (q_blocking q) failed = true) /\
+  (forall n, cc_job failed name q = inr n -> n = q_name q) /\
+  (forall q', cc_job failed name q = inl q' ->
+     q_name q' = q_name q /\ q_flag q' = q_flag q /\ forall x, In x (q_blocking q') <-> In x (q_blocking q) /\ x <> name).
+Proof.
+  unfold cc_job. destruct (q_blocking q) as [|b bl] eqn:B.
+  - split; [split; [discriminate|intros [X _]; congruence]|]. split; [discriminate|].
+    intros q' E. inversion E; subst q'. rewrite B. split; [reflexivity|]. split; [reflexivity|].
+    intros x. split; [intros []|intros [[] _]].
+  - destruct (q_flag q && meets (b :: bl) failed) eqn:M.
+    + apply andb_true_iff in M. destruct M as [M1 M2]. split; [split; [intros _; repeat split; auto; discriminate|reflexivity]|].
+      split; [|discriminate]. intros n E. inversion E. reflexivity.
+    + split; [split; [destruct (memN name (b :: bl)); discriminate|]|].
+      * intros [_ [X Y]]. rewrite X, Y in M. discriminate.
+      * split; [destruct (memN name (b :: bl)); discriminate|].
+        intros q' E. destruct (memN name (b :: bl)) eqn:Mem; injection E as <-; cbn [q_name q_flag q_blocking].
+        -- split; [reflexivity|]. split; [reflexivity|]. intros x.
+           assert (D : In x (diffN (b :: bl) [name]) <-> In x (b :: bl) /\ x <> name).
+           { rewrite diffN_spec. split.
+             - intros [H1 H2]. split; [exact H1|]. intros ->. apply H2. left; reflexivity.
+             - intros [H1 H2]. split; [exact H1|]. intros [X|[]]. congruence. }
+           exact D.
+        -- rewrite B. split; [reflexivity|]. split; [reflexivity|]. intros x. apply memN_false in Mem. split.
+           ++ intros H. split; [exact H|]. intros ->. exact (Mem H).
+           ++ intros [H1 _]. exact H1.
+Qed.
+
+Lemma cancel_records : forall n,
+  is_canceled (r_rc (sub_cancel_row n)) (r_status (sub_cancel_row n)) = true /\
+  is_canceled (r_rc (node_cancel_row n)) (r_status (node_cancel_row n)) = true /\
+  r_rc (sub_cancel_row n) <> 0%Z /\ r_rc (node_cancel_row n) <> 0%Z /\
+  sub_is_failure (r_rc (sub_cancel_row n)) = true /\ sub_is_failure (r_rc (node_cancel_row n)) = true /\
+  node_is_failure (r_rc (node_cancel_row n)) = true.
+Proof.
+  intros n. pose proof sub_cancel_rc_failure. pose proof node_cancel_rc_failure.
+  repeat split; try apply sub_cancel_row_canceled; try apply node_cancel_row_canceled; cbn; tauto.
+Qed.
+
+Lemma cancel_exact : forall sc, acyclic sc -> NoDup (map jname sc) ->
+  forall evs s, sys_run sc (sys_init sc) evs = Some s ->
+  forall r j, In r (s_rows s) -> find_job sc (r_name r) = Some j ->
+  (row_outcome r = Canceled <-> jflag j = true /\ exists d, In d (jdeps j) /\ bad (reference sc d) = true) /\
+  (jflag j = false -> row_outcome r = Finished (jrc j)).
+Proof.
+  intros sc A ND evs s H r j Hr F. destruct (level_agnostic sc A ND evs s H) as [R _]. rewrite (R r Hr). split.
+  - exact (reference_canceled_iff sc A _ j F).
+  - exact (reference_unflagged sc A _ j F).
+Qed.
